@@ -119,6 +119,10 @@ type Options struct {
 	StartTime int64 // virtual unix nanoseconds; 0 = default epoch
 	NowStep   int64 // ns added per Now() call (default 1)
 	EnvState  func() uint64
+	// ForcedSwitchCost is charged for picking a goroutine other than the default one when the running goroutine
+	// blocked or ended (0 = preemption bounding as in CHESS: such switches are free; 1 = delay bounding: every
+	// departure from the default deterministic schedule costs one deviation).
+	ForcedSwitchCost int
 }
 
 // Result is the outcome of one execution.
@@ -514,6 +518,8 @@ func (s *Sched) enabled(self *G) []alt {
 		c := 0
 		if i >= nself && selfEnabled {
 			c = 1 // preemption
+		} else if !selfEnabled && first && i > 0 {
+			c = s.opts.ForcedSwitchCost
 		}
 		if !first {
 			c++ // non-first ready case / partner of the same goroutine
@@ -807,22 +813,22 @@ func mkref(c any) chanRef {
 	return chanRef{ptr: ptr, lenf: v.Len, capn: v.Cap()}
 }
 
-// Go starts f as a managed goroutine.
+// Go starts f as a managed goroutine. Like every gate it is "before-style": the scheduling point comes first, then the
+// operation executes atomically with the code that follows it up to the next gate.
 func Go(site string, f func()) {
 	s, g := enter()
 	if s == nil {
 		go f()
 		return
 	}
+	g.kind = opRun
+	g.site = site
+	s.resched(g)
 	ng := s.newG(site)
 	ng.site = site
 	s.live.Add(1)
 	go s.gmain(ng, f)
 	g.observe(uint64(ng.id) + 5000)
-	// spawning is a scheduling point
-	g.kind = opRun
-	g.site = site
-	s.resched(g)
 }
 
 // Tok is returned by BeforeSend; Done must be called right after the real operation.
@@ -1025,6 +1031,55 @@ func Yield(site string) {
 	s.resched(g)
 }
 
+// Atomic gates a value-returning sync/atomic operation: scheduling point first, then the operation.
+func Atomic[T any](site string, f func() T) T {
+	s, g := enter()
+	if s == nil {
+		return f()
+	}
+	g.kind, g.site = opRun, site
+	s.resched(g)
+	v := f()
+	switch x := any(v).(type) {
+	case bool:
+		if x {
+			g.observe(11)
+		} else {
+			g.observe(12)
+		}
+	case int32:
+		g.observe(uint64(x))
+	case int64:
+		g.observe(uint64(x))
+	case uint32:
+		g.observe(uint64(x))
+	case uint64:
+		g.observe(x)
+	default:
+		rv := reflect.ValueOf(any(v))
+		if rv.IsValid() && (rv.Kind() == reflect.Pointer || rv.Kind() == reflect.UnsafePointer) && rv.IsNil() {
+			g.observe(13)
+		} else {
+			g.observe(14)
+		}
+	}
+	s.touchSeq(g, site)
+	return v
+}
+
+// AtomicV gates a sync/atomic operation without result (Store).
+func AtomicV(site string, f func()) {
+	s, g := enter()
+	if s == nil {
+		f()
+		return
+	}
+	g.kind, g.site = opRun, site
+	s.resched(g)
+	f()
+	s.touchSeq(g, site)
+}
+
 // After is a yield placed after an atomic operation that produces a value.
 func After[T any](v T, site string) T {
 	s, g := enter()
@@ -1078,10 +1133,10 @@ func Unlock(l sync.Locker, site string) {
 		l.Unlock()
 		return
 	}
-	l.Unlock()
-	s.lockState(any(l)).held = false
 	g.kind, g.site = opRun, site
 	s.resched(g)
+	l.Unlock()
+	s.lockState(any(l)).held = false
 }
 
 type rlocker interface {
@@ -1106,10 +1161,10 @@ func RUnlock(l rlocker, site string) {
 		l.RUnlock()
 		return
 	}
-	l.RUnlock()
-	s.lockState(any(l)).readers--
 	g.kind, g.site = opRun, site
 	s.resched(g)
+	l.RUnlock()
+	s.lockState(any(l)).readers--
 }
 
 // GateLock/GateRLock/Released* are used for lock types whose methods have other signatures (xsync.RBMutex):
@@ -1138,8 +1193,8 @@ func ReleasedW(obj any, site string) {
 		return
 	}
 	s.lockState(obj).held = false
-	g.kind, g.site = opRun, site
-	s.resched(g)
+	_ = g
+	_ = site
 }
 
 func ReleasedR(obj any, site string) {
@@ -1148,8 +1203,8 @@ func ReleasedR(obj any, site string) {
 		return
 	}
 	s.lockState(obj).readers--
-	g.kind, g.site = opRun, site
-	s.resched(g)
+	_ = g
+	_ = site
 }
 
 // Wait groups.
@@ -1159,6 +1214,8 @@ func WGAdd(wg *sync.WaitGroup, n int, site string) {
 		wg.Add(n)
 		return
 	}
+	g.kind, g.site = opRun, site
+	s.resched(g)
 	c := s.wgs[wg]
 	if c == nil {
 		c = new(int)
@@ -1166,8 +1223,6 @@ func WGAdd(wg *sync.WaitGroup, n int, site string) {
 	}
 	*c += n
 	wg.Add(n)
-	g.kind, g.site = opRun, site
-	s.resched(g)
 }
 
 func WGDone(wg *sync.WaitGroup, site string) { WGAdd(wg, -1, site) }
@@ -1678,6 +1733,7 @@ func RBLock(m *xsync.RBMutex, site string) {
 }
 
 func RBUnlock(m *xsync.RBMutex, site string) {
+	Yield(site)
 	m.Unlock()
 	ReleasedW(m, site)
 }
@@ -1688,6 +1744,7 @@ func RBRLock(m *xsync.RBMutex, site string) *xsync.RToken {
 }
 
 func RBRUnlock(m *xsync.RBMutex, t *xsync.RToken, site string) {
+	Yield(site)
 	m.RUnlock(t)
 	ReleasedR(m, site)
 }
